@@ -67,7 +67,8 @@ Proof. intros H hlen Hl p t. now apply verify_sound. Qed.
 
 Lemma gen_consts_expected_l :
   max_proof_depth = 128 /\ proof_depth_guard_is_gt = true /\ split_iters = 10 /\
-  seq_continue_is_lt = true /\ par_break_is_ge_and_lastleaf = true /\ chunk_proof_version = 0 /\
+  seq_continue_is_lt = true /\ par_break_is_ge_and_lastleaf = true /\
+  seq_err_checked_after_loop = true /\ seq_err_checked_after_peek = true /\ chunk_proof_version = 0 /\
   (prefix_leaf, prefix_internal, prefix_nil) = (0, 1, 2) /\ depth_size = 2 /\ value_length_size = 4.
 Proof. repeat split; reflexivity. Qed.
 
